@@ -1,0 +1,25 @@
+//go:build verif
+
+// Verification hooks (add-only, compiled only with -tags verif). They expose
+// the unexported superblob parser to the out-of-tree correspondence harness
+// in /verif (property C11); no existing behaviour is changed.
+package csblob
+
+// VerifSuperItem describes one parsed superblob entry.
+type VerifSuperItem struct {
+	IType, Magic uint32
+	Length       int
+}
+
+// VerifParseSuper calls parseSuper.
+func VerifParseSuper(blob []byte) (uint32, []VerifSuperItem, error) {
+	magic, items, err := parseSuper(blob)
+	if err != nil {
+		return 0, nil, err
+	}
+	out := make([]VerifSuperItem, len(items))
+	for i, it := range items {
+		out[i] = VerifSuperItem{IType: it.itype, Magic: uint32(it.magic), Length: len(it.data)}
+	}
+	return uint32(magic), out, nil
+}
